@@ -21,3 +21,18 @@ Inductive cast_kind := CK (k : kind) | CKOther (name : bytes).
 
 Record cast_site := mkcast {
   cs_func : bytes; cs_src : cast_kind; cs_from_value : bool; cs_dst : cast_kind; cs_pos : bytes }.
+
+(* one case of a To* type switch *)
+Inductive conv_action :=
+| AIdent                      (* case ptr-T: return i           - the same pointer *)
+| AAddrOfCopy                 (* case T:  return &i          - pointer to a copy *)
+| ACast (dst : cast_kind)     (* return D-pointer(unsafe.Pointer(i))  - reinterpretation of the original *)
+| ACastOfCopy (dst : cast_kind)   (* return D-pointer(unsafe.Pointer(&i)) - reinterpretation of a copy *)
+| AField (f : fid)            (* return &i.F *)
+| AReflect                    (* return reflectItemToType[D](it): nil -> (nil,nil); ConvertibleTo -> Convert; else error *)
+| AReflectInline              (* reflect.TypeOf(it).ConvertibleTo ... inline: no IsNil pre-check (nil interface panics) *)
+| ANoDefault                  (* no default clause: falls out of the switch to the error return *)
+| ACall (fn : bytes)          (* return f(...) *)
+| AOther (src : bytes).
+
+Record conv_case := mkconv { cv_src : cast_kind; cv_ptr : bool; cv_action : conv_action; cv_pos : bytes }.
